@@ -41,12 +41,19 @@ SlotMatches(u, r) ==
         /\ qfrom'[u] = r.qfrom
         /\ Len(out'[u]) = r.outn
 
+\* the code's verdict on "read the tun device?" after the step (tun descriptor in the read set of the server's next
+\* select()) is the specification's TunPolled on the new state - unless a session is within 3 s of the expiry boundary
+\* (the server looked at its clock a few milliseconds later than the step was stamped)
+NearEdge == \E u \in Slots : active'[u] /\ age'[u] >= EXP - 3
+PollsOK == NearEdge \/ (Ev.polls = TunPolled')
+
 TStep == /\ IsEvent("Step")
          /\ Act(Ev)
          /\ (Ev.c # "X" => reply' = Ev.reply)
          /\ {e \in eff' : e.k \in Observable} = SeqSet(Ev.eff)
          /\ Len(Ev.slots) = USERS
          /\ \A u \in Slots : SlotMatches(u, Ev.slots[u + 1])
+         /\ PollsOK
 TTick == IsEvent("Tick") /\ Tick(Ev.dt)
 TReset == /\ IsEvent("Reset")
           /\ active' = [u \in Slots |-> FALSE] /\ authed' = [u \in Slots |-> FALSE]
